@@ -103,8 +103,8 @@ theorem core3_result_is_closed (f g : Core3.Func) (h : Core3.translate f = some 
       · rename_i hu
         simp only [Bool.and_eq_true, List.all_eq_true] at hu
         refine ⟨(Core3.hasDupI_false_iff_nodup _).mp (by simpa using hd), ?_, ?_⟩
-        · intro u hu'; simpa using hu.1 u hu'
-        · intro u hu'; simpa using hu.2 u hu'
+        · intro u hu'; simpa using hu.1.1 u hu'
+        · intro u hu'; simpa using hu.1.2 u hu'
       · cases h
 
 /-- a duplicated definition (after numbering) is an error -/
